@@ -572,23 +572,17 @@ def scenarios(ctx):
         out.append({"id": f"z-{req}-{rl}-{lvl}", "offers": [["z", 1, req]], "spol": ["-", f"{rl},{lvl}", "-"],
                     "cpol": ["-", "~", "-"], "peer": "real", "msgs": msg_seq(rng, ctx.tier, 15, False),
                     "seg": rng.randrange(1 << 30), "inject": INJECT if req == 0 else []})
-    # bzip2 without size-1/size-2 fragments (those hit the empty-final-frame finding almost surely): the rest must hold
+    # bzip2 unfragmented (kept from the time when tiny fragments hit the empty-final-frame defect, repaired: e3e5971d)
     ms = [m for m in msg_seq(rng, ctx.tier, 15, False)]
     for m in ms:
         m["frag"] = None
     out.append({"id": "z-unfragmented", "offers": [["z", 1, 0]], "spol": ["-", "0,~", "-"], "cpol": ["-", "~", "-"],
                 "peer": "real", "msgs": ms, "seg": 11})
-    # brotli: without context takeover it must hold; with takeover the 2nd message is the known finding
+    # brotli: every takeover combination, both directions (the takeover defect was repaired: 40db9fcb)
     for s, c in ((1, 1), (1, 0), (0, 1), (0, 0)):
         msgs = msg_seq(rng, ctx.tier, 15, False)
-        if (s, c) != (1, 1):
-            # keep only the direction(s) that run without takeover, plus (0,0): everything (finding)
-            if (s, c) == (1, 0):
-                msgs = [m for m in msgs if m["dir"] == "s2c"]
-            elif (s, c) == (0, 1):
-                msgs = [m for m in msgs if m["dir"] == "c2s"]
         out.append({"id": f"r-s{s}c{c}", "offers": [["r", 1, s]], "spol": ["-", "-", f"{c},~"], "cpol": ["-", "-", "~"],
-                    "peer": "real", "msgs": msgs, "seg": rng.randrange(1 << 30), "inject": INJECT if (s, c) == (1, 1) else []})
+                    "peer": "real", "msgs": msgs, "seg": rng.randrange(1 << 30), "inject": INJECT if s == c else []})
     # send limit (C16 interplay): refused sends must not disturb later messages, with or without context takeover (F17, repaired)
     for snct, tag in ((1, "nct"), (0, "takeover")):
         lim = [{"dir": "s2c", "bin": False, "gen": ["comp", 40, 1], "api": "whole", "frag": None, "dnc": False},
